@@ -68,6 +68,18 @@ def observe(arg):
                 out.append(ev)
             elif k == "elsld":
                 el = P.elements[t["z"]]
+                if t.get("edited"):
+                    # an element of a private table whose owner changes its density after the SLD was asked once
+                    from .formexec import _tab
+                    from periodictable import xsf as _x
+                    T1 = _tab("T1")
+                    if "xray" not in T1.properties:
+                        _x.init(T1)
+                    el = T1[t["z"]]
+                    if el.density is None:
+                        continue
+                    el.xray.sld(energy=t["E"])
+                    el._density = el._density * 2.5
                 E = t["E"]
                 r = el.xray.sld(energy=E)
                 if r[0] is None or el.density is None:
